@@ -210,7 +210,9 @@ Qed.
 Lemma pop_none k operand r : cont_level r <> k -> pop k operand r = None.
 Proof.
   unfold pop, cont_level. intros H.
-  destruct r as [|[| | | | | |s|] [|[| | | | | |[| | | | | | | | | | | | | | | | | | | | | | | | |o| | |]|] [|[| | | | | |s3|] r]]]; try reflexivity.
+  destruct r as [|t1 r]; [reflexivity|]. destruct t1; try reflexivity.
+  destruct r as [|t2 r]; [reflexivity|]. destruct t2 as [| | | | | |s|]; try reflexivity. destruct s; try reflexivity.
+  destruct r as [|t3 r]; [reflexivity|]. destruct t3; try reflexivity.
   destruct (Nat.eqb (op_level o) k) eqn:E; [|reflexivity]. apply Nat.eqb_eq in E. contradiction.
 Qed.
 
